@@ -615,7 +615,7 @@ def bss_eval_images_framewise(
             )
         else:
             # if we have a silent frame set results as np.nan
-            sdr[:, k] = sir[:, k] = sar[:, k] = perm[:, k] = np.nan
+            sdr[:, k] = isr[:, k] = sir[:, k] = sar[:, k] = perm[:, k] = np.nan
 
     return sdr, isr, sir, sar, perm
 
